@@ -457,6 +457,7 @@ func cmdCheck(args []string) int {
 			"assertion_queries": r.AssertQ, "solver_decided_forks": r.Decisions, "forced_branches": r.Forced,
 			"covers": r.Covers, "instructions": r.Instrs, "max_decisions_on_a_path": r.MaxTrail, "wall_s": r.Wall.Seconds(),
 			"reachability_witness": r.Completed > 0,
+			"preemption_budget": hr.cfg.Preempt, "preemption_at_lock_acquisitions": hr.cfg.PreemptLocks, "engine_injected_faults": hr.cfg.FaultModel,
 		})
 	}
 	var fnames []string
